@@ -225,6 +225,7 @@ def run_unit_verus(unit, tier):
         g, path = gen_unit(unit, "main")
         gs, ps = gen_unit(unit, "canary-start")
         ge, pe = gen_unit(unit, "canary-end")
+        gl, pl = gen_unit(unit, "canary-loop")
     except extract.ExtractError as e:
         res["undecided"].append("extraction: %s" % e)
         return res
@@ -236,16 +237,18 @@ def run_unit_verus(unit, tier):
     rl = unit.get("rlimit")
     res["finding_tags"] = sorted(g.finding_tags)
     res["failed_findings_variant"] = []
-    with cf.ThreadPoolExecutor(max_workers=4) as ex:
+    with cf.ThreadPoolExecutor(max_workers=5) as ex:
         fm = ex.submit(run_verus, path, rl)
         fs = ex.submit(run_verus, ps, rl)
         fe = ex.submit(run_verus, pe, rl)
+        fl = ex.submit(run_verus, pl, rl) if sum(gl.loop_counts.values()) else None
         ff = None
         if g.finding_tags:
             gf, pf = gen_unit(unit, "findings")
             ff = ex.submit(run_verus, pf, rl)
         rm, rs, re_ = fm.result(), fs.result(), fe.result()
         rf = ff.result() if ff else None
+        rlp = fl.result() if fl else None
     if rf is not None:
         if rf.get("timeout") or not rf.get("json") or rf["json"].get("verification-results", {}).get("encountered-vir-error"):
             res["undecided"].append("findings variant could not be verified (tool error)")
@@ -304,6 +307,13 @@ def run_unit_verus(unit, tier):
     res["failed"] = list(seen.values())
     # ---- vacuity guards: every function under contract must FAIL both canaries
     res["canary"] = {"start": canary_check(rs, gs, "CANARY-START"), "end": canary_check(re_, ge, "CANARY-END")}
+    if rlp is not None:
+        res["canary"]["loop"] = canary_loop_check(rlp, gl)
+        c = res["canary"]["loop"]
+        if c.get("error"):
+            res["undecided"].append("vacuity guard (loop) could not run: %s" % c["error"])
+        for fn in c.get("not_rejected", []):
+            res["undecided"].append("VACUOUS: `assert(false)` at the end of a loop body of %s was accepted" % fn)
     for which in ("start", "end"):
         c = res["canary"][which]
         if c.get("error"):
@@ -318,6 +328,9 @@ def run_unit_verus(unit, tier):
 def canary_check(r, g, marker):
     if r.get("timeout") or not r.get("json"):
         return {"error": "no result"}
+    te = _canary_tool_error(r)
+    if te:
+        return {"error": "canary variant did not compile: " + te}
     if r["json"].get("verification-results", {}).get("encountered-vir-error"):
         rend = [d.get("rendered", "") for d in r["diags"] if d.get("level") == "error"]
         return {"error": "canary variant rejected before verification: " + "".join(rend)[:600]}
@@ -337,6 +350,37 @@ def canary_check(r, g, marker):
     fns = [f["fn"] for f in g.functions]
     return {"functions": len(fns), "rejected": len([f for f in fns if f in rejected]),
             "not_rejected": [f for f in fns if f not in rejected]}
+
+
+def _canary_tool_error(r):
+    """a canary variant must fail only through `assertion failed` diagnostics; anything else means it did not run properly"""
+    for d in r.get("diags", []):
+        if d.get("level") == "error" and not d.get("message", "").startswith("aborting due to"):
+            msg = d.get("message", "")
+            if d.get("code") is not None or not any(m in msg for m in VERIFICATION_MSGS):
+                return msg + " " + d.get("rendered", "")[:400]
+    return None
+
+
+def canary_loop_check(r, g):
+    if r.get("timeout") or not r.get("json"):
+        return {"error": "no result"}
+    te = _canary_tool_error(r)
+    if te:
+        return {"error": "canary variant did not compile: " + te}
+    if r["json"].get("verification-results", {}).get("encountered-vir-error"):
+        rend = [d.get("rendered", "") for d in r["diags"] if d.get("level") == "error"]
+        return {"error": "canary variant rejected before verification: " + "".join(rend)[:600]}
+    rejected_lines = set()
+    for d in r["diags"]:
+        if d.get("level") != "error" or "assertion failed" not in d.get("message", ""):
+            continue
+        for sp in d.get("spans", []):
+            if sp.get("is_primary"):
+                rejected_lines.add(sp["line_start"] - 1)
+    want = [(i, g.origin[i].get("fn")) for i, ln in enumerate(g.lines) if "CANARY-LOOP" in ln]
+    missing = sorted(set(fn for i, fn in want if i not in rejected_lines))
+    return {"loops": len(want), "rejected": len([1 for i, fn in want if i in rejected_lines]), "not_rejected": missing}
 
 
 # ----------------------------------------------------------------------------------------------
